@@ -33,11 +33,16 @@ Definition create_db_fs (fs : fsys) (p : str) (force : bool) (imp : result ist) 
 (* read-style calls: look-up, iteration, children, parents, region, interfeatures, create_introns,
    children_bp, bed12, counts are functions of the content; merge() (and children_bp(merge=True),
    which calls it) additionally increments in-memory counters for the ids of the features it makes up *)
-Inductive readop := RPure | RMerge (bases : list str).
+Inductive readop :=
+| RPure
+| RMerge (bases : list str)
+| RFailedWrite.   (* a write call (delete, add_relation) that raises before its commit: the statements it ran stay in the
+                     connection's open transaction, nothing of them is on disk, and nothing after it may put them there *)
 
 Definition read_step (s : mstate) (r : readop) : mstate :=
   match r with
   | RPure => s
+  | RFailedWrite => s
   | RMerge bs => mkM (m_disk s) (fold_left (fun a b => snd (auto_incr b a)) bs (m_mem s)) (m_bak s)
   end.
 
